@@ -1,5 +1,6 @@
 import Fabio.Driver.Proto
 import Fabio.Model.C10
+import Fabio.Generated.C10
 namespace Fabio.Driver.C10
 open Lean Fabio.Driver Fabio.Model.C10
 
@@ -121,6 +122,21 @@ def specBytes (b : Bytes) (o : Obs) (orc : Oracles) : Bool :=
   let bothOk := !(orc.tlsOk && o.route.isSome) || o.route == some orc.tlsName
   sizeOk && routeOk && strictOk && oraclesOk && bothOk
 
+/-- The functions **translated from the current Go source** (`Generated.C10.XBufSize`, `XUnmarshal`, written by
+`tools/factgen/xlate.go` on every run) evaluated on the same bytes as the implementation: the buffer size of the
+first 9 bytes and `readServerName(b[5:])`. This validates the translator (its combinators, its integer model)
+against the real code on every case; `Props/C10Xlate.lean` proves the translation equal to the model. -/
+def xlateAgrees (b : Bytes) (o : Obs) : Bool :=
+  let sizeOk := !Generated.C10.XBufSize.translated || match Generated.C10.XBufSize.run { p0 := b.take 9 } with
+    | .ok ((n, none), _) => o.size == some n.toNat && 0 ≤ n
+    | .ok ((_, some _), _) => o.size.isNone && o.sizeErr.isSome
+    | .panic _ => false
+  let nameOk := !Generated.C10.XUnmarshal.translated || match Generated.C10.XUnmarshal.run { p0 := b.drop 5 } with
+    | .ok (true, s) => o.ok && o.name == hexEncode s.m_serverName
+    | .ok (false, _) => !o.ok && o.name == ""
+    | .panic _ => false
+  sizeOk && nameOk
+
 def bytesH (real : Bool) : Handler := fun inp impl => do
   let hex ← inp.getObjValAs? String "hex"
   let b ← hexDecode hex
@@ -131,7 +147,7 @@ def bytesH (real : Bool) : Handler := fun inp impl => do
   let orc ← readOracles impl
   let spec := specBytes b o orc && (!real || (orc.tlsOk && orc.strictOk))
   let nontrivial := if real then orc.tlsOk && orc.strictOk && o.route.isSome else o.size.isSome
-  return ({ model := obsJson m, agree := m == some o, spec := spec, nontrivial := nontrivial, tag := tag } : Verdict).toJson
+  return ({ model := obsJson m, agree := m == some o && xlateAgrees b o, spec := spec, nontrivial := nontrivial, tag := tag } : Verdict).toJson
 
 /-! Abstract hellos (stream `c10.model`). -/
 
@@ -202,7 +218,7 @@ def modelH : Handler := fun inp impl => do
     (o.ok && o.name == want && o.size == some b.length && o.route == nonEmpty want &&
      orc.strictOk && orc.strictName == want && (!orc.tlsOk || orc.tlsName == want))
   let nontrivial := wf && (match h.extensions with | some es => es.length ≥ 2 && es.any (fun e => e.typ == 0) | none => false)
-  return ({ model := mj, agree := m == some o && encOk, spec := encOk && specBytes b o orc && wfSpec,
+  return ({ model := mj, agree := m == some o && encOk && xlateAgrees b o, spec := encOk && specBytes b o orc && wfSpec,
             nontrivial := nontrivial, tag := tag } : Verdict).toJson
 
 def streams : List (String × Handler) :=
